@@ -8,12 +8,27 @@
    cleanup message runs next / it propagates); leaving the loop with FailedPause sets exit status abort; the finally
    block emits a RunStop with that status for every run still open, empties the bundlers and goes idle; a suspension
    requested without checkpoint arms FailedPause, goes aborting, cancels the task and leaves nothing on the stack.
-   Partial: these steps are not composed into one end-to-end theorem ("the call ends Interrupted with state idle"):
-   that needs the state invariant of Proofs/RE_Inv.v (stack alignment, pc typing); the implementation-side oracle
-   checks the end-to-end statement on the corpus.  The window opened by clear_checkpoint ends at the next EXPLICIT
+   END TO END ([C10_end_to_end], Proofs/RE_C10.v): for every reachable state in which the engine runs a plan with no
+   checkpoint in effect and no device failure pending, a pause or a suspension request, and every continuation of the
+   schedule made of task steps and events that cannot disturb the task (run permit, status completions that succeed,
+   releases, cache completions): the engine never becomes paused; the first thing any plan is handed afterwards --
+   before any further message is processed -- is FailedPause, and it goes to the plan on top of the stack when that is
+   a running plan; and once the task has finished: the engine is idle with no run open, every run started has its
+   RunStop, every started plan that was on the stack has been resumed again or closed, and RE(...)/resume() ends
+   RunEngineInterrupted unless the task itself raised (then that exception).  [C10_full] as first stated is false
+   ([C10_full_refuted]: it allows the call that ends to be abort()/stop()/halt(), whose result is the run uids); exit
+   status 'abort' is not guaranteed ([C10_status_success_when_plan_swallows]): it is decided by how the outermost plan
+   ends (C02).  [C10_any_requests]: whatever else arrives after the failed request -- abort, stop, halt, further pauses and
+   suspensions, failing statuses, any main-thread call except a new RE(...)/resume() -- the engine never becomes paused,
+   and once the task has finished it is idle, marked interrupted, with every run stopped (no hypothesis on where the
+   request lands: the final sleep of `_run` included).  Still partial: WHAT is thrown when further requests arrive before
+   the task's next step (RequestAbort/PlanHalt instead of FailedPause) is only shown by the oracle, and "every cleanup
+   block entered exactly once" on the generator level (C20-C22 have the generator semantics).
+   The window opened by clear_checkpoint ends at the next EXPLICIT
    checkpoint (repaired defect C09-a, fixes/C09-a.diff); implicit checkpoints (stage, close_run, ...) do not end it. *)
 From Coq Require Import List.
-From BV Require Import Engine.RE Engine.REInst Proofs.RE_Ctl Proofs.RE_Replay Proofs.RE_CtlExamples.
+From BV Require Import Engine.RE Engine.REInst Proofs.RE_Ctl Proofs.RE_Replay Proofs.RE_CtlExamples Proofs.RE_Hold Proofs.RE_DocsCor
+  Proofs.RE_C10 Proofs.RE_C10Ex.
 Import ListNotations.
 
 Theorem C10_paused_only_when_resumable :
@@ -78,7 +93,7 @@ Theorem C10_suspend_request_without_checkpoint_aborts :
 Proof. exact suspend_request_without_checkpoint_aborts. Qed.
 Print Assumptions C10_suspend_request_without_checkpoint_aborts.
 
-(* the end-to-end statement (not proved as one theorem: see header) *)
+(* the end-to-end statement as first written: FALSE ([C10_full_refuted] below); the proved one is [C10_end_to_end] *)
 Definition C10_full : Prop :=
   forall (P : Type) (presume : P -> input -> outcome P) (plan_of : nat -> P) (D : Type) (dev : D -> nat -> devmeth -> D * devres)
          (d : D) (paus stag : list nat) (rec : bool) (evs1 evs2 : list event) (req : event) (a : mainact),
@@ -97,3 +112,117 @@ Example C10_nonvacuous :
   In (OPlanIn 0 (Throw EFailedPause)) o /\ In (ODoc (DStop 0 XAbort RsEmpty [])) o /\ In (OOut OutInterrupted Idle false false) o /\
   forallb (fun x => match x with OState _ Paused => false | _ => true end) o = true /\ In (OState Running Pausing) o.
 Proof. exact c10_pause_without_checkpoint_aborts. Qed.
+
+(* ------------------------------------------------------------------ end to end (Proofs/RE_C10.v) *)
+Theorem C10_end_to_end :
+  forall (P : Type) (presume : P -> input -> outcome P) (plan_of : nat -> P) (D : Type) (dev : D -> nat -> devmeth -> D * devres)
+         (d : D) (paus stag : list nat) (rec : bool) (evs1 : list event) (req : event) (evs2 : list event),
+    let s0 := init P D d paus stag rec in
+    let s1 := fst (run P presume plan_of D dev s0 evs1) in
+    let o1 := snd (run P presume plan_of D dev s0 evs1) in
+    let s3 := fst (run P presume plan_of D dev s1 (req :: evs2)) in
+    let o := snd (run P presume plan_of D dev s1 (req :: evs2)) in
+    (req = EvReqPause false \/ exists sid pre post, req = EvReqSuspend sid pre post) ->
+    state P D s1 = Running -> cache P D s1 = None -> exc_slot P D s1 = None ->
+    (pc P D s1 = PcSleep0 \/ exists k, pc P D s1 = PcCmd k) ->
+    forallb cont_ev evs2 = true ->
+    no_bad (o1 ++ o) = true ->
+    Forall np o /\
+    match fin o with
+    | Some x => exists pid, x = OPlanIn pid (Throw EFailedPause) /\ toppid P (plans P D s1) pid
+    | None => existsb is_task evs2 = true -> nolive_top P (plans P D s1)
+    end /\
+    (forall r, pc P D s3 = PcDone r ->
+       state P D s3 = Idle /\ bundlers P D s3 = [] /\ interrupted P D s3 = true /\
+       (forall pid p, In (FUser pid p true) (plans P D s1) -> given pid o) /\
+       (forall u, In (DStart u) (docs_of (o1 ++ o)) -> exists xs rs n, In (DStop u xs rs n) (docs_of (o1 ++ o))) /\
+       (forall a, (a = AResume \/ exists pid, a = ACall pid) -> main_err P D s1 = None ->
+          exists out, snd (step P presume plan_of D dev s3 (EvMainDone a)) = [OOut out Idle (deferred P D s3) (resumable P D s3)] /\
+                      (raises r = false -> out = OutInterrupted) /\
+                      (forall e, r = TRaise e -> e <> ECancelled -> out = OutRaise e))).
+Proof. exact failed_pause_end_to_end. Qed.
+Print Assumptions C10_end_to_end.
+
+(* whatever follows the failed request (any requests, statuses, main-thread calls except a new RE(...)/resume()) *)
+Theorem C10_any_requests :
+  forall (P : Type) (presume : P -> input -> outcome P) (plan_of : nat -> P) (D : Type) (dev : D -> nat -> devmeth -> D * devres)
+         (d : D) (paus stag : list nat) (rec : bool) (evs1 : list event) (req : event) (evs2 : list event),
+    let s0 := init P D d paus stag rec in
+    let s1 := fst (run P presume plan_of D dev s0 evs1) in
+    let o1 := snd (run P presume plan_of D dev s0 evs1) in
+    let s3 := fst (run P presume plan_of D dev s1 (req :: evs2)) in
+    let o := snd (run P presume plan_of D dev s1 (req :: evs2)) in
+    (req = EvReqPause false \/ exists sid pre post, req = EvReqSuspend sid pre post) ->
+    state P D s1 = Running -> cache P D s1 = None ->
+    forallb ok_ev evs2 = true ->
+    no_bad (o1 ++ o) = true ->
+    Forall np o /\
+    (forall r, pc P D s3 = PcDone r ->
+       state P D s3 = Idle /\ bundlers P D s3 = [] /\ interrupted P D s3 = true /\
+       (forall u, In (DStart u) (docs_of (o1 ++ o)) -> exists xs rs n, In (DStop u xs rs n) (docs_of (o1 ++ o)))).
+Proof. exact failed_pause_any_requests. Qed.
+Print Assumptions C10_any_requests.
+
+Example C10_any_requests_nonvacuous :
+  check ex_c10_pa_tapes ex_c10_pa_ledger ex_c10_pa_paus ex_c10_pa_stag ex_c10_pa_rec ex_c10_pa_evs ex_c10_pa_obs = true /\
+  ex_c10_pa_evs = pa_evs1 ++ EvReqPause false :: pa_evs2 ++ [EvMainDone (ACall 0)] /\
+  In (EvReqAbort (RsGiven 1)) pa_evs2 /\
+  let s1 := fst (run TP (t_resume ex_c10_pa_tapes) t_plan_of nat (t_dev ex_c10_pa_ledger) (init TP nat 0 ex_c10_pa_paus ex_c10_pa_stag ex_c10_pa_rec) pa_evs1) in
+  let o1 := snd (run TP (t_resume ex_c10_pa_tapes) t_plan_of nat (t_dev ex_c10_pa_ledger) (init TP nat 0 ex_c10_pa_paus ex_c10_pa_stag ex_c10_pa_rec) pa_evs1) in
+  let s3 := fst (run TP (t_resume ex_c10_pa_tapes) t_plan_of nat (t_dev ex_c10_pa_ledger) s1 (EvReqPause false :: pa_evs2)) in
+  let o := snd (run TP (t_resume ex_c10_pa_tapes) t_plan_of nat (t_dev ex_c10_pa_ledger) s1 (EvReqPause false :: pa_evs2)) in
+  state TP nat s1 = Running /\ cache TP nat s1 = None /\ forallb ok_ev pa_evs2 = true /\ no_bad (o1 ++ o) = true /\
+  (exists r, pc TP nat s3 = PcDone r) /\
+  never_paused_b o = true /\ state TP nat s3 = Idle /\ bundlers TP nat s3 = [] /\ interrupted TP nat s3 = true.
+Proof.
+  destruct c10_any_requests_nonvacuous as (A & B & C). split; [exact A|]. split; [exact B|]. split; [|exact C].
+  right; right; left; reflexivity.
+Qed.
+
+Theorem C10_full_refuted : ~ C10_full.
+Proof. exact c10_full_refuted. Qed.
+Print Assumptions C10_full_refuted.
+
+(* the hypotheses of [C10_end_to_end] are met by recorded real runs: a pause (plan with try/finally cleanup) and a
+   suspension (two nested open runs), both after clear_checkpoint *)
+Example C10_end_to_end_nonvacuous_pause :
+  check ex_c10_fin_tapes ex_c10_fin_ledger ex_c10_fin_paus ex_c10_fin_stag ex_c10_fin_rec ex_c10_fin_evs ex_c10_fin_obs = true /\
+  ex_c10_fin_evs = fin_evs1 ++ EvReqPause false :: fin_evs2 ++ [EvMainDone (ACall 0)] /\
+  let s1 := fst (run TP (t_resume ex_c10_fin_tapes) t_plan_of nat (t_dev ex_c10_fin_ledger) (init TP nat 0 ex_c10_fin_paus ex_c10_fin_stag ex_c10_fin_rec) fin_evs1) in
+  let o1 := snd (run TP (t_resume ex_c10_fin_tapes) t_plan_of nat (t_dev ex_c10_fin_ledger) (init TP nat 0 ex_c10_fin_paus ex_c10_fin_stag ex_c10_fin_rec) fin_evs1) in
+  let s3 := fst (run TP (t_resume ex_c10_fin_tapes) t_plan_of nat (t_dev ex_c10_fin_ledger) s1 (EvReqPause false :: fin_evs2)) in
+  let o := snd (run TP (t_resume ex_c10_fin_tapes) t_plan_of nat (t_dev ex_c10_fin_ledger) s1 (EvReqPause false :: fin_evs2)) in
+  state TP nat s1 = Running /\ cache TP nat s1 = None /\ exc_slot TP nat s1 = None /\ pc TP nat s1 = PcSleep0 /\
+  main_err TP nat s1 = None /\ forallb cont_ev fin_evs2 = true /\ no_bad (o1 ++ o) = true /\
+  (exists r, pc TP nat s3 = PcDone r) /\
+  never_paused_b o = true /\ fin o = Some (OPlanIn 0 (Throw EFailedPause)) /\
+  has_o (OMsg {| mid := Some 6; mcmd := CCloseRun None RsEmpty; mobj := None; mrun := 0 |}) o = true /\
+  has_o (OMsg {| mid := Some 7; mcmd := CUnstage; mobj := Some 0; mrun := 0 |}) o = true /\
+  state TP nat s3 = Idle /\ bundlers TP nat s3 = [].
+Proof. exact c10_end_to_end_nonvacuous_pause. Qed.
+
+Example C10_end_to_end_nonvacuous_suspend :
+  check ex_c10_susp_tapes ex_c10_susp_ledger ex_c10_susp_paus ex_c10_susp_stag ex_c10_susp_rec ex_c10_susp_evs ex_c10_susp_obs = true /\
+  ex_c10_susp_evs = susp_evs1 ++ EvReqSuspend 0 false false :: susp_evs2 ++ [EvMainDone (ACall 0)] /\
+  let s1 := fst (run TP (t_resume ex_c10_susp_tapes) t_plan_of nat (t_dev ex_c10_susp_ledger) (init TP nat 0 ex_c10_susp_paus ex_c10_susp_stag ex_c10_susp_rec) susp_evs1) in
+  let o1 := snd (run TP (t_resume ex_c10_susp_tapes) t_plan_of nat (t_dev ex_c10_susp_ledger) (init TP nat 0 ex_c10_susp_paus ex_c10_susp_stag ex_c10_susp_rec) susp_evs1) in
+  let s3 := fst (run TP (t_resume ex_c10_susp_tapes) t_plan_of nat (t_dev ex_c10_susp_ledger) s1 (EvReqSuspend 0 false false :: susp_evs2)) in
+  let o := snd (run TP (t_resume ex_c10_susp_tapes) t_plan_of nat (t_dev ex_c10_susp_ledger) s1 (EvReqSuspend 0 false false :: susp_evs2)) in
+  state TP nat s1 = Running /\ cache TP nat s1 = None /\ exc_slot TP nat s1 = None /\
+  (exists k, pc TP nat s1 = PcSleep0 \/ pc TP nat s1 = PcCmd k) /\
+  main_err TP nat s1 = None /\ forallb cont_ev susp_evs2 = true /\ no_bad (o1 ++ o) = true /\
+  (exists r, pc TP nat s3 = PcDone r) /\
+  never_paused_b o = true /\ fin o = Some (OPlanIn 0 (Throw EFailedPause)) /\
+  existsb (fun x => match x with ODoc (DStop 0 XAbort _ _) => true | _ => false end) o = true /\
+  existsb (fun x => match x with ODoc (DStop 1 XAbort _ _) => true | _ => false end) o = true /\
+  state TP nat s3 = Idle.
+Proof. exact c10_end_to_end_nonvacuous_suspend. Qed.
+
+(* exit status 'abort' needs the plans to let the exception through: this plan catches FailedPause and returns *)
+Example C10_status_success_when_plan_swallows :
+  let o := snd (run TP (t_resume sw_tapes) t_plan_of nat (t_dev []) (init TP nat 0 [] [] false) sw_evs) in
+  no_bad o = true /\ never_paused_b o = true /\
+  has_o (OPlanIn 0 (Throw EFailedPause)) o = true /\
+  has_o (ODoc (DStop 0 XSuccess RsEmpty [])) o = true /\
+  has_o (OOut OutInterrupted Idle false false) o = true.
+Proof. exact c10_status_success_when_plan_swallows. Qed.
